@@ -10,7 +10,9 @@ import (
 	jsoniter "github.com/json-iterator/go"
 )
 
-var json = jsoniter.ConfigFastest
+// Do not use jsoniter.ConfigFastest here: it marshals floats with 6 digits precision only, which
+// silently changes non-integer job variables (e.g. 1e-9 becomes 0) when they are persisted.
+var json = jsoniter.ConfigCompatibleWithStandardLibrary
 
 type PersistedJob struct {
 	ID       uuid.UUID
